@@ -47,11 +47,13 @@ def main():
         os.makedirs(tdir, exist_ok=True)
         dpath = os.path.join(tdir, "zz_seed_demo_test.go")
         open(dpath, "w").write(demo)
-        rc1, out1 = sh("go test -vet=off -count=1 -run . ./%s 2>&1 | tail -30" % target, wt, timeout=1800)
+        names = re.findall(r"^func (Test\w+)\(", demo, re.M)
+        runpat = "'^(" + "|".join(names) + ")$'"   # only the demonstration's own tests: other tests of the package toggle process-wide parser settings
+        rc1, out1 = sh("go test -vet=off -count=1 -run %s ./%s 2>&1 | tail -30" % (runpat, target), wt, timeout=1800)
         failed_with = ("FAIL" in out1)
         meta["ran"].append("demo in %s with patch -> %s" % (target, "FAILS (expected)" if failed_with else "passes (UNEXPECTED)"))
         sh(["git", "apply", "-R", patch], wt)
-        rc2, out2 = sh("go test -vet=off -count=1 -run . ./%s 2>&1 | tail -30" % target, wt, timeout=1800)
+        rc2, out2 = sh("go test -vet=off -count=1 -run %s ./%s 2>&1 | tail -30" % (runpat, target), wt, timeout=1800)
         passes_without = ("FAIL" not in out2) and ("ok" in out2)
         meta["ran"].append("demo in %s without patch -> %s" % (target, "passes (expected)" if passes_without else "FAILS (UNEXPECTED)"))
         os.remove(dpath)
